@@ -808,7 +808,7 @@ class ModelContext(ParseContext):
         config = ParserConfig.new(config, **settings)
         assert isinstance(config, ParserConfig)
         super().__init__(start=start, config=config, asmodel=asmodel)
-        if not self.config.semantics and asmodel:
+        if self.config.semantics is None and asmodel:
             self.config.semantics = ModelBuilderSemantics()
 
         self._rulemap: dict[str, Rule] = {rule.name: rule for rule in rules}
